@@ -351,6 +351,10 @@ def pushToListener (k : Kernel) (child : Nat) (l : SockAddr) : Kernel :=
       | none => k
       | some li => k.setSock lfd { ls with listen := some { li with ready := li.ready ++ [child] } }
 
+def rstAckSeg (t : Tcb) (l : SockAddr) : Seg :=
+  { srcPort := l.port, dstPort := t.peer.port, seq := t.sndNxt, ack := t.rcvNxt,
+    flags := { rst := true, ack := true }, window := 0, payload := [] }
+
 /-- `handle_on_connection` (tcp.rs:194). -/
 def handleOnConnection (cfg : Cfg) (k : Kernel) (fd : Nat) (l r : SockAddr) (s : Seg) : Kernel :=
   if s.flags.rst then abortOrReap cfg k fd true
@@ -380,9 +384,12 @@ def handleOnConnection (cfg : Cfg) (k : Kernel) (fd : Nat) (l r : SockAddr) (s :
           else k
         | .closed => k
         | _ =>
-          let (t', sendAck) := t.handleEstablished cfg s
-          let k1 := k.setSock fd { so with tcb := some t' }
-          if sendAck then k1.emit l r (t'.ackSeg cfg.recvCap l.port r.port) else k1
+          if cfg.fixRstAfterClose && so.fdClosed && !s.payload.isEmpty then
+            (k.emit l r (rstAckSeg t l)).remove fd
+          else
+            let (t', sendAck) := t.handleEstablished cfg s
+            let k1 := k.setSock fd { so with tcb := some t' }
+            if sendAck then k1.emit l r (t'.ackSeg cfg.recvCap l.port r.port) else k1
 
 /-- `tcp::deliver` (tcp.rs:131). UDP datagrams are dropped (no UDP receiver is modelled). -/
 def deliver (cfg : Cfg) (k : Kernel) (p : Packet) : Kernel :=
@@ -401,10 +408,6 @@ def deliver (cfg : Cfg) (k : Kernel) (p : Packet) : Kernel :=
       else k
 
 /-! ### Close and reap (tcp.rs:533-718) -/
-
-def rstAckSeg (t : Tcb) (l : SockAddr) : Seg :=
-  { srcPort := l.port, dstPort := t.peer.port, seq := t.sndNxt, ack := t.rcvNxt,
-    flags := { rst := true, ack := true }, window := 0, payload := [] }
 
 /-- The children a closing listener resets (tcp.rs:639-664): its ready queue, then every
     `SynReceived` socket bound to its port (and address, unless the listener is a wildcard). -/
